@@ -238,6 +238,24 @@ def column_store(cur, idx, v):
     return (("COLS", tuple(cols), 1), conflict)
 
 
+def count_origin(v):
+    """provenance of a count (len / shape / size): of the convex hull's output, or of input data (parameter / state array).
+    Encoded as ('ret', '<count:..>') so that it travels through comparisons, boolean operators and builtins like the
+    other provenance tags."""
+    if v is None:
+        return frozenset()
+    if ("ret", "scipy.spatial.ConvexHull") in v.tags:
+        return frozenset([("ret", "<count:hull>")])
+    if v.pdeps or v.al or any(o != "call" for (o, _a) in v.deps):
+        return frozenset([("ret", "<count:input>")])
+    return frozenset()
+
+
+def _given_order(v):
+    """the array holds the caller's rows in the order given (an alias or a plain copy of a parameter / state array)."""
+    return bool(v.al) or "raw-param" in v.tags or any(isinstance(t, tuple) and t and t[0] == "val-of" for t in v.tags)
+
+
 # ----------------------------------------------------------------------------- attributes of values
 def hull_attr(interp, base, attr):
     k = base.extra  # dimension of the input points (Fraction) and ndim
@@ -271,10 +289,11 @@ def value_attr(interp, base, attr, st, node):
             out.tags = (base.tags - {"transposed"}) if "transposed" in base.tags else (base.tags | {"transposed"})
         return out
     if attr in ("shape",):
-        return Val(kind="tuple", dim=D0, elem=Val(kind="int", dim=D0, deps=base.deps, pdeps=base.pdeps),
-                   deps=base.deps, pdeps=base.pdeps, born=interp.time)
+        co = count_origin(base)
+        return Val(kind="tuple", dim=D0, elem=Val(kind="int", dim=D0, deps=base.deps, pdeps=base.pdeps, tags=co),
+                   deps=base.deps, pdeps=base.pdeps, born=interp.time, tags=co)
     if attr in ("size", "ndim"):
-        return Val(kind="int", dim=D0, born=interp.time)
+        return Val(kind="int", dim=D0, born=interp.time, tags=count_origin(base) if attr == "size" else frozenset())
     if attr == "flags":
         return Val(kind="flags", dim=D0)
     if attr == "dtype":
@@ -499,6 +518,8 @@ def call_ext(interp, ext, node, args, kwargs, st):
             if name == "roll":
                 sh = _arg(args, kwargs, 1, "shift")
                 tags = frozenset([("roll", sh.const if sh is not None and sh.has_const() else None)])
+                if _given_order(a0):
+                    tags = tags | {("roll-given", tuple(sorted(a0.pdeps)), tuple(sorted(a0.deps)))}
             if name in ("abs", "absolute"):
                 tags = frozenset(["abs"])
                 interp.emit(st, "abs", node, target=a0)
@@ -747,6 +768,11 @@ def call_ext(interp, ext, node, args, kwargs, st):
             return fresh(D0, kind="tuple" if name == "shape" else "int")
         if name in ("meshgrid", "broadcast_arrays", "atleast_3d"):
             return fresh(a0.dim if a0 is not None else TOP)
+        if name in ("diff", "ediff1d"):
+            out = fresh(a0.dim)
+            if name == "diff" and _given_order(a0):
+                out.tags = out.tags | {("ret", "<neighbour-diff>")}
+            return out
         if name in ("clip",):
             out = fresh(a0.dim, kind=a0.kind if a0.kind in ("float", "arr") else "arr")
             lo_ = _arg(args, kwargs, 1, "a_min")
@@ -892,6 +918,7 @@ def _builtin(interp, name, node, args, kwargs, st, fresh, deps, pdeps):
     a0 = args[0] if args else None
     if name == "len":
         tg = frozenset([("len-of", tuple(sorted(a0.pdeps)))]) if a0 is not None and a0.pdeps else frozenset()
+        tg = tg | count_origin(a0)
         return Val(dim=D0, kind="int", deps=deps, pdeps=pdeps, born=t, extra=("len", a0), tags=tg)
     if name == "range":
         return Val(kind="list", elem=Val(dim=D0, kind="int", born=t, deps=deps), dim=D0, deps=deps, born=t, tags=frozenset(["range"]))
